@@ -47,6 +47,17 @@ pinned code propagates it, so: one protocol's accessory forged => pyatv.connect(
 (AuthenticationError for MRP/Companion; for the AirPlay tunnel the ProtocolError its wrapper always
 raises) and that protocol's connection has no keys; all honest => connect() returns with working keys.
 
+Every caller of pair-verify in the tree is driven (grep verify_credentials()/pair_verify():
+MrpProtocol._enable_encryption, CompanionProtocol._setup_encryption, airplay verify_connection — used
+by AP2Session.connect and RAOP AirPlayV2 — and AirPlayV1.setup()/AirPlayV1.play_url(), which run HAP
+pair-verify WITHOUT deriving keys: there `verify_credentials()` returning is the whole verdict, the
+oracle demands "raises and the receiver sees no further request", the symbolic run compares with the
+model's `verifyCredentials`).  The harness hands the client a FRESH session key for every
+SRPAuthHandler.initialize(); a reconnect campaign (run_reconnect) connects, disconnects and connects
+again on ONE CompanionAPI / ONE AP2Session / the same configuration through pyatv.connect(), answering
+the second session with the first one's bytes: a replay is rejected by construction ("replay of a reply
+from another session"), whatever the reference verifier would say about a client that reuses its key.
+
 DECISION on AirPlay's exception class (documented in meta/C06.json too): the property says a
 rejected reply "makes connecting fail with an authentication error".  `verify_connection`
 has no error mapping: AuthenticationError is raised for a wrong identifier / signature, but
@@ -79,6 +90,8 @@ RULE = ("symbolic run: structured replies (each TLV field of M2 present/absent/d
         "endpoint or frame is answered) so that any fallback after a rejected verify is reachable; "
         "user-level run: real pyatv.connect() on multi-service configurations (MRP+Companion, AirPlay+Companion, "
         "AirPlay tunnel+MRP ...), fake transports for every protocol, one protocol's accessory forged, others honest; "
+        "verify-only call sites AirPlayV1.setup/play_url (no keys derived) in both runs; reconnect run: two sessions "
+        "on one CompanionAPI / AP2Session / configuration, second answered by replaying the first or forged; "
         "distinct = (mode, transport or configuration+forged protocol, variant descriptor, session history)")
 ASSUMPTIONS = [
     "HAP credentials are present (service.credentials set): without credentials no pair-verify runs and no keys exist",
@@ -1224,6 +1237,9 @@ async def attempt_airplayv1(case, loop):
     conn.connection_made(FakeTransport(airplay_accessory(case, loop, holder)))
     context = StreamContext()
     context.credentials = parse_credentials(case.w.credentials_string())
+    if case.mode == "sym":
+        SpyBytes.log = case.log
+        context.credentials.atv_id = SpyBytes(context.credentials.atv_id)
     proto = AirPlayV1(context, RtspSession(conn))
     try:
         if case.transport == "airplayv1-setup":
@@ -1797,6 +1813,9 @@ def lean_line(w, transport, case):
     cx = getattr(case, "client_priv", None) or w.client_x
     m4 = build_m4(case.m4)
     m4w = "raise:" + case.m4 if m4 is None else "r:" + pd_word(*m4)
+    if transport in VERIFY_ONLY:
+        return " ".join(["verify", "airplay", hx(w.a_ltpk), hx(w.client_ltsk), hx(w.a_id), hx(w.client_id),
+                         hx(cx), hx(cr.x_pub(cx)), pdw, m4w])
     return " ".join(["connect", transport, hx(w.a_ltpk), hx(w.client_ltsk), hx(w.a_id), hx(w.client_id),
                      hx(cx), hx(cr.x_pub(cx)), pdw, m4w])
 
@@ -1837,6 +1856,9 @@ def run_symbolic(ctx, only=None):
         for t in TRANSPORTS:
             for v in variants + M4_VARIANTS[t] + [dict(a, **m) for a in ACCEPTABLE[1:3] for m in M4_VARIANTS[t]]:
                 todo.append((t, v, w, None))
+        for t in VERIFY_ONLY:
+            for v in variants:
+                todo.append((t, v, w, None))
         todo += pair_entries(rng.fork("pairs"), sym)
     cases = []
     with Bench("sym") as bench:
@@ -1857,7 +1879,8 @@ def run_symbolic(ctx, only=None):
             ctx.disagree(describe("sym", t, v, case.w, hist), impl, ans,
                          where="pair-verify decision, exception class, installed keys and sequence of checks")
         ctx.validated()
-        check_consistency(ctx, case, t, "sym", v, hist)
+        if t not in VERIFY_ONLY:
+            check_consistency(ctx, case, t, "sym", v, hist)
 
 
 def run_real(ctx, only=None):
